@@ -102,6 +102,52 @@ def counterField (s : Array Char) (i : Nat) (dflt : Int) : M (Nat × Int) :=
     | .error e => .error e
     | .ok w => .ok (j, counterOfWord w.toList dflt)
 
+/-- the en-passant field and the skip to its end (textio.cpp:109-130) -/
+def epPart (s : Array Char) (i : Nat) (b : Board) (wtm : Bool) : M (Option Sq × Nat) :=
+  if i < s.size then
+    match epField s i b wtm with
+    | .error e => .error e
+    | .ok ep =>
+      match skipWhile s false i with
+      | .error e => .error e
+      | .ok j => .ok (ep, j)
+  else .ok (none, i)
+
+def counterPart (s : Array Char) (i : Nat) (dflt : Int) : M (Nat × Int) :=
+  if i < s.size then counterField s i dflt else .ok (i, dflt)
+
+/-- castling flags are kept only with king and rook on their original squares (textio.cpp:96-104) -/
+def castleFix (b : Board) (cm : UInt8) : UInt8 :=
+  let g (n : Nat) : Pc := b.getD n 0
+  let cm := if g 4 != WKING || g 7 != WROOK then cm &&& ~~~(2 : UInt8) else cm
+  let cm := if g 4 != WKING || g 0 != WROOK then cm &&& ~~~(1 : UInt8) else cm
+  let cm := if g 60 != BKING || g 63 != BROOK then cm &&& ~~~(8 : UInt8) else cm
+  if g 60 != BKING || g 56 != BROOK then cm &&& ~~~(4 : UInt8) else cm
+
+/-- everything after the castling field (textio.cpp:106-177) -/
+def readTail (s : Array Char) (i : Nat) (b : Board) (wtm : Bool) (cm : UInt8) : M RawPos :=
+  match skipWhile s true i with
+  | .error e => .error e
+  | .ok i =>
+  match epPart s i b wtm with
+  | .error e => .error e
+  | .ok (ep, i) =>
+  match skipWhile s true i with
+  | .error e => .error e
+  | .ok i =>
+  match counterPart s i 0 with
+  | .error e => .error e
+  | .ok (i, hmc) =>
+  match skipWhile s true i with
+  | .error e => .error e
+  | .ok i =>
+  match counterPart s i 1 with
+  | .error e => .error e
+  | .ok (_, fmc) =>
+  match finishRead b wtm cm ep hmc fmc with
+  | .error e => .error (.fen e)
+  | .ok r => .ok r
+
 /-- `TextIO::readFEN` with every index explicit -/
 def readFENIdx (s : Array Char) : M RawPos :=
   match placeLoop s 0 7 0 (Vector.replicate 64 0) with
@@ -112,47 +158,12 @@ def readFENIdx (s : Array Char) : M RawPos :=
   | .ok i =>
   if i ≥ s.size then .error (.fen .invalidSide) else
   rd s i fun sc =>                                   -- `fen[i++]`
-  let wtm := sc == 'w'
   match skipWhile s true (i + 1) with
   | .error e => .error e
   | .ok i =>
   match castleLoop s i 0 with
   | .error e => .error e
-  | .ok (i, cm) =>
-  let g (n : Nat) : Pc := b.getD n 0
-  let cm := if g 4 != WKING || g 7 != WROOK then cm &&& ~~~(2 : UInt8) else cm
-  let cm := if g 4 != WKING || g 0 != WROOK then cm &&& ~~~(1 : UInt8) else cm
-  let cm := if g 60 != BKING || g 63 != BROOK then cm &&& ~~~(8 : UInt8) else cm
-  let cm := if g 60 != BKING || g 56 != BROOK then cm &&& ~~~(4 : UInt8) else cm
-  match skipWhile s true i with
-  | .error e => .error e
-  | .ok i =>
-  let epRes : M (Option Sq × Nat) :=
-    if i < s.size then
-      match epField s i b wtm with
-      | .error e => .error e
-      | .ok ep => (skipWhile s false i).map fun j => (ep, j)
-    else .ok (none, i)
-  match epRes with
-  | .error e => .error e
-  | .ok (ep, i) =>
-  match skipWhile s true i with
-  | .error e => .error e
-  | .ok i =>
-  let hRes : M (Nat × Int) := if i < s.size then counterField s i 0 else .ok (i, 0)
-  match hRes with
-  | .error e => .error e
-  | .ok (i, hmc) =>
-  match skipWhile s true i with
-  | .error e => .error e
-  | .ok i =>
-  let fRes : M (Nat × Int) := if i < s.size then counterField s i 1 else .ok (i, 1)
-  match fRes with
-  | .error e => .error e
-  | .ok (_, fmc) =>
-  match finishRead b wtm cm ep hmc fmc with
-  | .error e => .error (.fen e)
-  | .ok r => .ok r
+  | .ok (i, cm) => readTail s i b (sc == 'w') (castleFix b cm)
 
 /-! ## stringToMove / uciStringToMove -/
 
